@@ -29,7 +29,7 @@ pub static DEF: PropDef = PropDef {
         "while some task is between take_hook and set_hook the process hook is std's default by construction: no sentinel / message-content expectation is attached to panics fired in that window",
         "PANIC_CATCHER_HOOK_SET is reset between runs through the guarded test-only hook",
     ],
-    required_probes: &["c19.panic_caught", "c19.panic_escaped", "c19.nested_noncatching_outer", "c19.install", "c19.query", "c19.epilogue", "c19.install_lock_contended", "c19.transparent", "c19.static_payload"],
+    required_probes: &["c19.panic_caught", "c19.panic_escaped", "c19.nested_noncatching_outer", "c19.install", "c19.query", "c19.epilogue", "c19.install_lock_contended", "c19.transparent", "c19.static_payload", "c19.nonstring_payload"],
     extra: None,
 };
 
@@ -122,6 +122,9 @@ enum Op {
     Panic,
     /// panic with a `&'static str` payload (the hook reads `&str` and `String` payloads through different downcasts)
     PanicStatic,
+    /// panic with a payload that is neither `&str` nor `String`: there is no message to demand, but the text
+    /// returned by catch_panic must not be an earlier panic's
+    PanicAny,
 }
 
 fn render(ops: &[Op]) -> String {
@@ -135,6 +138,7 @@ fn render(ops: &[Op]) -> String {
             Op::Catch(b) => format!("catch{{{}}}", render(b)),
             Op::Panic => "panic".to_string(),
             Op::PanicStatic => "panic-static".to_string(),
+            Op::PanicAny => "panic-any".to_string(),
         })
         .collect::<Vec<_>>()
         .join("; ")
@@ -151,7 +155,11 @@ fn gen_ops(budget: &mut usize, depth: usize) -> Vec<Op> {
         match k {
             0 => out.push(Op::Enable),
             1 => {
-                out.push(if chance(1, 4, "prog.static_payload") { Op::PanicStatic } else { Op::Panic });
+                out.push(match choose_w(&[6, 2, 1], "prog.payload") {
+                    0 => Op::Panic,
+                    1 => Op::PanicStatic,
+                    _ => Op::PanicAny,
+                });
                 break; // anything after a panic in the same block is dead code
             }
             2 => out.push(Op::Disable),
@@ -175,6 +183,8 @@ struct Pending {
     msg: String,
     frame: Option<usize>,
     content_expected: bool,
+    /// messages of this task's earlier panics: a returned text that contains one of them is stale
+    earlier: Vec<String>,
 }
 
 struct TaskModel {
@@ -185,6 +195,7 @@ struct TaskModel {
     last: Last,
     pending: Option<Pending>,
     counter: u32,
+    msgs: Vec<String>,
 }
 
 fn depth_catching(m: &TaskModel) -> usize {
@@ -299,7 +310,13 @@ fn exec_ops(ops: &[Op], m: &mut TaskModel) {
                                         if catching { "catching" } else { "transparent-frame-caught" },
                                         format!("task {}: panic {:?} caught by frame #{idx} (catching={catching}); model says frame {:?}", m.task, p.msg, p.frame),
                                     ));
-                                } else if p.content_expected && !text.contains(p.msg.as_str()) {
+                                } else if p.content_expected && p.earlier.iter().any(|e| *e != p.msg && text.contains(e.as_str())) {
+                                    kernel::fail(v(
+                                        "stale-message",
+                                        "",
+                                        format!("task {}: caught panic {:?} but the error text is an earlier panic's: {:?}", m.task, p.msg, text.lines().next()),
+                                    ));
+                                } else if p.content_expected && !p.msg.is_empty() && !text.contains(p.msg.as_str()) {
                                     kernel::fail(v(
                                         "message-missing",
                                         "",
@@ -312,9 +329,10 @@ fn exec_ops(ops: &[Op], m: &mut TaskModel) {
                 }
                 check_level(m, "after-catch");
             }
-            Op::Panic | Op::PanicStatic => {
+            Op::Panic | Op::PanicStatic | Op::PanicAny => {
                 m.counter += 1;
                 let is_static = matches!(op, Op::PanicStatic);
+                let is_any = matches!(op, Op::PanicAny);
                 // static payloads cannot carry the run number: unique per (task, counter) within the run is enough,
                 // because the sentinel log and the model are per run
                 const STATIC_MSGS: [[&str; 4]; 3] = [
@@ -323,7 +341,16 @@ fn exec_ops(ops: &[Op], m: &mut TaskModel) {
                     ["ps-t2-a", "ps-t2-b", "ps-t2-c", "ps-t2-d"],
                 ];
                 let static_msg: &'static str = STATIC_MSGS[m.task % 3][(m.counter as usize - 1) % 4];
-                let msg = if is_static && m.counter <= 4 { static_msg.to_string() } else { format!("p{}-{}-{}", m.run, m.task, m.counter) };
+                // some formatted messages carry a quote and a newline (the hook formats the payload into its own text)
+                let msg = if is_any {
+                    String::new()
+                } else if is_static && m.counter <= 4 {
+                    static_msg.to_string()
+                } else if m.counter % 4 == 3 {
+                    format!("p'{}-{}\nline2-{}", m.run, m.task, m.counter)
+                } else {
+                    format!("p{}-{}-{}", m.run, m.task, m.counter)
+                };
                 let is_static = is_static && m.counter <= 4;
                 let dc = depth_catching(m);
                 let hs = hook_state();
@@ -335,7 +362,11 @@ fn exec_ops(ops: &[Op], m: &mut TaskModel) {
                     msg: msg.clone(),
                     frame,
                     content_expected: hs == HookState::Installed,
+                    earlier: m.msgs.clone(),
                 });
+                if !msg.is_empty() {
+                    m.msgs.push(msg.clone());
+                }
                 let expect = match hs {
                     HookState::InTransit => {
                         if dc > 0 {
@@ -353,11 +384,20 @@ fn exec_ops(ops: &[Op], m: &mut TaskModel) {
                     kernel::count("c19.panic_escaped");
                 }
                 let task = m.task;
-                g(|s| s.expect.push((task, msg.clone(), expect)));
+                if !is_any {
+                    g(|s| s.expect.push((task, msg.clone(), expect)));
+                }
                 crate::tr!("t{}: panic {msg:?}{} (catching frames={dc}, hook={hs:?}, sentinel expectation={expect:?})", m.task, if is_static { " [&'static str payload]" } else { "" });
                 if is_static {
                     kernel::count("c19.static_payload");
                     std::panic::panic_any(static_msg);
+                }
+                if is_any {
+                    kernel::count("c19.nonstring_payload");
+                    if dc > 0 && hs == HookState::Installed {
+                        m.last = Last::Unknown;
+                    }
+                    std::panic::panic_any(42u32);
                 }
                 panic!("{}", msg);
             }
@@ -375,6 +415,7 @@ fn task_body(task: usize, run: u64, prog: Vec<Op>) {
         last: Last::None,
         pending: None,
         counter: 0,
+        msgs: Vec::new(),
     };
     let r = {
         let mm = &mut m;
@@ -390,7 +431,7 @@ fn task_body(task: usize, run: u64, prog: Vec<Op>) {
         Err(payload) => {
             let got = kernel::panic_message(&*payload);
             match m.pending.take() {
-                Some(p) if p.frame.is_none() && p.msg == got => {}
+                Some(p) if p.frame.is_none() && (p.msg == got || (p.msg.is_empty() && got == "<non-string panic payload>")) => {}
                 Some(p) => kernel::fail(v(
                     "escaped-catching-frame",
                     "",
@@ -524,7 +565,7 @@ fn run(ctx: &RunCtx) -> Result<(), Violation> {
         }
     }
     for (t, m) in &sentinel {
-        if !expect.iter().any(|(_, msg, _)| msg == m) {
+        if m != "<unknown>" && !expect.iter().any(|(_, msg, _)| msg == m) {
             kernel::fail(v("sentinel-unexpected", crate::seams::panic_class(m), format!("sentinel saw an unexpected panic {m:?} on task {t:?}")));
         }
     }
